@@ -127,7 +127,7 @@ def run(ctx):
     chunks = data['chunks']
     nchunks = int(chunks.max()) + 1
     chunks_given = chunks
-    if rng.random() < 0.5:
+    if i % 2 == 0:
       chunks_given = fits.encode_labels(rng, data)['chunks']     # chunk ids are names: gaps are legal
       ctx.hist('rca.chunk_ids', 'gapped')
     nc = [None] + list(range(1, d + 1))
